@@ -37,6 +37,15 @@ TABLE = {
  'C10': (MC, 'TLC graph walk with real faults (spec/Ragged.tla, Faults, IdxMax)',
          'TLC checks FailedAppendExact/WellFormedRagged with fault plans (iterable raises, wrong atom, wrong rank, unconvertible item at every position; values write stops after k rows + b bytes; index write refused after 0 or half a row) and with index overflow decided by the state (IdxMax). Each fault macro-edge is executed on the real code: crafted iterables, RLIMIT_FSIZE armed right before the failing item and lifted by the SIGXFSZ handler, int8/uint8 index types with blocks of 40/80 rows so that the model bound is the type bound.',
          'Index-file write faults can only be isolated when the values file is shorter than the index file (others are counted as skipped). Quick tier samples macro-edges per edge class when the graph is large.', '7 C10'),
+ 'C12': (MC, 'TLC-evaluated index semantics (spec/Indexing.tla) + lifecycle observation',
+         'TLC evaluates GetItem(shape, idx) - result shape and selected flat positions or IndexError - for every index tuple over 23 items (ints incl. negative/out of range, slices with steps/reversed/empty/out of range, Ellipsis, None, one integer list, one boolean mask; wrong arity) x shapes incl. empty first axes; the real a[idx] (outside and inside open_array()), a[idx]=scalar and shaped values (then raw file + fresh handle), detachment (owndata, no base, unchanged after the file is overwritten/truncated/deleted) and /proc/self/fd + /proc/self/maps after every call, successful or failed, are compared. Index forms outside the grammar are judged by NumPy on a reference array and counted separately.',
+         'The Indexing operators were validated against NumPy itself on 21k cases while building; element values are those of NumPy (reference named by the property).', '7 C12'),
+ 'C14': (MC, 'TLC-checked frame arithmetic + exhaustive table (spec/Frames.tla)',
+         'TLC proves for all parameters up to N+1 that the declarative frame definition of the property equals the arithmetic of iterindices/fit_frames (DeclEqAlg) and that step=chunklen with remainder tiles [start,end) (ChunksConcatenate), and writes the expected result of every (n, chunklen, stepsize|None, start|None, end|None, remainder) tuple incl. invalid ones; real iterindices, iterchunks (bytes, dtype, detachment, concatenation) and fit_frames (ints, integral floats, non-integral floats) are compared row by row, plus random large tuples evaluated by the same TLC operators.',
+         'Exhaustive for n <= N (6 quick, 9 thorough); larger values sampled.', '7 C14'),
+ 'C19': (MC, 'TLC model of the shared memory map (spec/Mmap.tla); schedules replayed in forked children',
+         'TLC checks NoUseAfterUnmap, HoldersMapped, NoLeak, OneMap over all interleavings of 3 generators (different chunk parameters), 2 nested contexts, element reads and writes, and shows that the pinned owner-closes algorithm violates them. Behaviours of the graph are executed on the real Array (3 MiB) each in its own forked child: exit status / terminating signal, every yielded chunk and read element vs the spec, and /proc/self/fd + maps after completion.',
+         'Memory safety is observed, not proved. Quick: every schedule up to length 3 + 2500 edge-covering + 300 random long schedules.', '7 C19'),
 }
 NA = {}
 def main():
